@@ -6,6 +6,7 @@ import MysticVerif.Model.Solver
 import MysticVerif.Model.NelderMead
 import MysticVerif.Model.PowellS
 import MysticVerif.Model.ClosedLoop
+import MysticVerif.Model.Brent
 import MysticVerif.Drv.TermParse
 
 namespace MysticVerif.SolverDrv
@@ -291,6 +292,23 @@ def parseLs : Val → Option (LsRec Float)
     pure { pre, y, post, xi }
   | _ => none
 
+
+/-- the line-search oracle of a `pw` / `solve` request: the recorded searches `(ls (...))`, or - with `(brent true)` - the
+    MODELLED Brent search (Model/Brent.lean) on the decorated objective with `tol = xtol*100` and `maxiter = imax`:
+    then nothing of the real run's line searches is used -/
+def pwOracle (o : Obj V Float) (args : List Val) : Option (Nat → V → V → PowellS.LsRec Float) := do
+  let useBrent := ((kw? args "brent").bind Val.asBool?).getD false
+  if useBrent then
+    let tol ← (kw? args "tol").bind Val.asFloat?
+    let imax ← (kw? args "imax").bind Val.asNat?
+    let bitsEq : V → V → Bool := fun a b => a.length == b.length && (List.zipWith (fun x y => x.toBits == y.toBits) a b).all id
+    let bad : V → V → PowellS.LsRec Float := fun p _ => { pre := [], y := p.map (fun _ => 0.0 / 0.0), post := [], xi := p.map fun _ => 0.0 }
+    pure (Brent.lsRec (Brent.floatK) bitsEq (fun z => (o.objK z []).1) tol imax 1000 1002 bad)
+  else
+    let lsl ← (kw? args "ls").bind Val.asList? |>.bind (·.mapM parseLs)
+    let lsArr := lsl.toArray
+    pure fun k p _ => lsArr.getD k { pre := [], y := p, post := [], xi := p.map fun _ => 0.0 }
+
 open MysticVerif.PowellS in
 def showPw (s : Pw Float Float) : String :=
   s!"(x {pFs s.x} fval {pF s.fval} nlog {s.log.length} nstep {s.stepLog.length} nls {s.nls} bigind {s.bigind} delta {pF s.delta})"
@@ -301,14 +319,11 @@ def handlePw (args : List Val) : String := Id.run do
   let some x0 := (kw? args "x0").bind Val.asFloats? | return "bad-op"
   let some steps := (kw? args "steps").bind Val.asNat? | return "bad-op"
   let record := ((kw? args "record").bind Val.asBool?).getD true
-  let some lsl := (kw? args "ls").bind Val.asList? |>.bind (·.mapM parseLs) | return "bad-op"
-  let lsArr := lsl.toArray
   let o := su.obj
+  let some ls := pwOracle o args | return "bad-op"
   let clip0 : V → V := match su.box with | some b => b.clip0 | none => id
   let n := x0.length
   let eye : List V := (List.range n).map fun i => (List.range n).map fun j => if i = j then 1.0 else 0.0
-  -- an exhausted oracle answers with the start point (never happens when the model follows the real run)
-  let ls : Nat → V → V → LsRec Float := fun k p _ => lsArr.getD k { pre := [], y := p, post := [], xi := p.map fun _ => 0.0 }
   let mut outs : Array String := #[]
   let mut s : Pw Float Float := default
   for k in [0:steps] do
@@ -341,12 +356,10 @@ def handleSolve (args : List Val) : String := Id.run do
   if kind == "pw" then
     let some x0 := (kw? args "x0").bind Val.asFloats? | return "bad-op"
     let record := ((kw? args "record").bind Val.asBool?).getD true
-    let some lsl := (kw? args "ls").bind Val.asList? |>.bind (·.mapM parseLs) | return "bad-op"
-    let lsArr := lsl.toArray
+    let some ls := pwOracle o args | return "bad-op"
     let clip0 : V → V := match su.box with | some b => b.clip0 | none => id
     let n := x0.length
     let eye : List V := (List.range n).map fun i => (List.range n).map fun j => if i = j then 1.0 else 0.0
-    let ls : Nat → V → V → PowellS.LsRec Float := fun k p _ => lsArr.getD k { pre := [], y := p, post := [], xi := p.map fun _ => 0.0 }
     let a := pwAlg o pwCfgF ls cond record (clip0 x0) eye
     let c0 := { c0 with powell := true }
     let r := solve a fuel c0 (default : PowellS.Pw Float Float) 0 0
